@@ -170,6 +170,13 @@ def kid_jobs(tier, hosts, vslots_for):
                 if _adjacent_text(tr[0], tr[1]) or _adjacent_text(tr[1], tr[2]):
                     continue
                 out.append({'host': h, 'kids': list(tr)})
+        # text on both sides of a child that contributes nothing ({} or a comment): two text runs, each cleaned on its own
+        for t1 in ('T2', 'nl', 'hi', 'sp'):
+            for mid in ('empty', 'cmt'):
+                for t2 in ('T2', 'nl', 'hi'):
+                    if tier == 'quick' and (t1, t2) not in (('T2', 'T2'), ('nl', 'hi'), ('hi', 'nl'), ('sp', 'T2'), ('T2', 'nl')):
+                        continue
+                    out.append({'host': h, 'kids': [t1, mid, t2]})
         # text between / around other children (the position dimension of C02)
         for t in (['T2', 'T3'] if tier == 'quick' else ['T1', 'T2', 'T3']):
             out.append({'host': h, 'kids': ['el', t, 'el']})
